@@ -121,8 +121,8 @@ fn compile_perm_check(buffer: &mut String, check: &PermCheck) {
     buffer.push_str(&code)
 }
 
-fn literal(special: &FormatSpecial) -> String {
-    match special {
+fn literal(special: &FormatSpecial) -> CResult<String> {
+    Ok(match special {
         FormatSpecial::Alarm => "\\a".to_string(),
         FormatSpecial::Ascii(val) => {
             escape_template(&format!("{}", char::from_u32(*val as u32).unwrap_or('0')))
@@ -130,13 +130,16 @@ fn literal(special: &FormatSpecial) -> String {
         FormatSpecial::Backslash => "\\\\".to_string(),
         FormatSpecial::Backspace => "\\b".to_string(),
         FormatSpecial::CarriageReturn => "\\r".to_string(),
-        FormatSpecial::Clear => "\\c".to_string(),
+        // Stopping the output half-way cannot be expressed in a format template
+        FormatSpecial::Clear => {
+            return Err(CompileError::UnsupportedFormat(format!("{special:?}")))
+        }
         FormatSpecial::Form => "\\f".to_string(),
         FormatSpecial::Newline => "\\n".to_string(),
         FormatSpecial::Null => "\\0".to_string(),
         FormatSpecial::TabHorizontal => "\\t".to_string(),
         FormatSpecial::TabVertical => "\\v".to_string(),
-    }
+    })
 }
 
 fn placeholder(field: &FormatField) -> CResult<&'static str> {
@@ -271,7 +274,7 @@ impl TargetScheme for Vec<FormatElement> {
             .map(|el| match el {
                 FormatElement::Literal(s) => Ok(escape_template(s)),
                 FormatElement::Field(f) => placeholder(f).map(|s| s.to_string()),
-                FormatElement::Special(v) => Ok(literal(v)),
+                FormatElement::Special(v) => literal(v),
             })
             .collect::<CResult<Vec<String>>>()?
             .join("");
